@@ -1047,5 +1047,5 @@ META = dict(
         "the hit/hold/timing-point/SV/sample line codecs tokenised from the writers' f-strings against the indices "
         "the readers use, the line classifiers against the separators and flag literals the writers emit, the "
         "section markers and slice bounds, and list coverage.  Each rule instance holds for every input at once."),
-    not_decided="x<->column arithmetic for k=1..18, the <1 ms int() bound, float text round-trip of tempo codes",
+    not_decided="the <1 ms int() bound as a number, float text round-trip beyond 15 significant digits, storyboard / colour sections the model has no field for",
 )
